@@ -9,9 +9,11 @@ gen_tables() into coq/C09/Tables.v and sent on every case line.
 
 Case lines sent to bin/modelrun_c09 (see coq/C09/driver.ml):
   <id> run <fix> <page> <n> <offs> <foots> <conv> <paths> <fs> <imgs> <ops...>
-  ops: L<slot><path><T|F> (load, mmap on/off)  F<slot> (get_fdata + touch every element)
+  ops: L<slot><path><T|F|R> (load, mmap on / off / 'r')  F<slot> (get_fdata + touch every element)
        U<slot> (uncache)  E<slot> (edit a header field)  D<slot> (set_data_dtype f8<->f4)
-       S<slot><path> (nib.save)  B<slot> (to_bytes / from_bytes)
+       S<slot><path> (nib.save)  B<slot> (to_bytes / from_bytes)  T<slot><path> (img.to_filename)
+       C<slot><slot2> (slot2 := type(img).from_image(img): two image objects, one dataobj)  M<slot> (edit np.asanyarray(dataobj))
+       I<slot> (set_data_dtype(int16))  W<slot><path> (save as uint8)  X<slot> (save onto a link to /dev/full)
   result tokens: done | val:<v|G> | saved:<path>:<v|G>:<dtype>:<affine> | bytes:<v|G>:<dtype>:<affine>
                  | ref:<refusal> | crash | dead      (G = garbage: not compared)
 Histories run in CHILD processes (harness/c09_child.py), batched, with sentinel lines; a child
@@ -66,13 +68,27 @@ def measure_facts(workdir):
         if not (0 <= off[f] < 4096 and 0 <= foot[f] < 4096):
             raise RuntimeError(f'unexpected layout of {f}: offset {off[f]} trailing {foot[f]}')
     conv = []
-    for a in 'NPM':          # SPM Analyze names share '.img' with the NIfTI pair: its histories stay in-class
+    # the class a file gets when an image of class a is saved under a name of family b ('.img' names hold a
+    # NIfTI pair or an SPM Analyze image; family A = family P = '.img')
+    cls_of = {nib.Nifti1Image: 'N', nib.Nifti1Pair: 'P', MGHImage: 'M', nib.Spm2AnalyzeImage: 'A'}
+    tclass = {}
+    for a in 'NPMA':
         for b in 'NPM':
-            if a == b:
+            fn = os.path.join(d, f't_{a}{b}' + EXT[b])
+            nib.save(K[a](data.astype(np.float32), aff), fn)
+            k = type(nib.load(fn))
+            if k not in cls_of:
+                raise RuntimeError(f'save of {a} under a {b} name loads as {k}: outside the modelled classes')
+            tclass[(a, b)] = cls_of[k]
+        tclass[(a, 'A')] = tclass[(a, 'P')]
+    for a in 'NPMA':
+        for b in 'NPM':
+            if a == b or tclass[(a, b)] == a:
                 continue
             for dt in ('f4', 'f8', 'i2', 'u1'):
                 if a == 'M' and dt == 'f8':
                     continue
+                b_cls = tclass[(a, b)]
                 img = K[a](data.astype(np.float32 if a == 'M' else np.float64), aff)
                 img.set_data_dtype({'f4': np.float32, 'f8': np.float64, 'i2': np.int16, 'u1': np.uint8}[dt])
                 fn = os.path.join(d, f'c_{a}{b}{dt}' + EXT[b])
@@ -84,11 +100,12 @@ def measure_facts(workdir):
                 names = {('f', 4): 'f4', ('f', 8): 'f8', ('i', 2): 'i2', ('u', 1): 'u1'}
                 if (r.kind, r.itemsize) not in names:
                     raise RuntimeError(f'conversion {a}->{b} of {dt} gives {r}: outside the modelled dtypes')
-                conv.append((a, b, dt, names[(r.kind, r.itemsize)]))
+                conv.append((a, b_cls, dt, names[(r.kind, r.itemsize)]))
     # classes whose header has a slope but no intercept field (the writer cannot shift the data)
     nointer = {f: bool(getattr(K[f].header_class, 'has_data_slope', False) and
                        not getattr(K[f].header_class, 'has_data_intercept', False)) for f in 'NPMA'}
-    FACTS.update(off=off, foot=foot, conv=conv, page=mmap.PAGESIZE, nointer=nointer)
+    conv = sorted(set(conv))
+    FACTS.update(off=off, foot=foot, conv=conv, page=mmap.PAGESIZE, nointer=nointer, tclass=tclass)
     import shutil
     shutil.rmtree(d, ignore_errors=True)
     return FACTS
@@ -118,12 +135,14 @@ def gen_tables():
            '; '.join(f'({fm[a]}, {fm[b]}, {d.upper()}, {r.upper()})' for a, b, d, r in f['conv']) + '].',
            'Definition platform_nointer (f : fmt) : bool := match f with ' +
            ' | '.join(f'{fm[k]} => {"true" if f["nointer"][k] else "false"}' for k in 'NPMA') + ' end.',
+           'Definition platform_tclass (x n : fmt) : fmt := match x, n with ' +
+           ' | '.join(f'{fm[a]}, {fm[b]} => {fm[f["tclass"][(a, b)]]}' for a in 'NPMA' for b in 'NPMA') + ' end.',
            '(* scale: the scale identities the array writers compute, per history; mixed: data of both signs;',
            '   lowdim: fewer than three axes *)',
            'Definition platform_cfg (n : Z) (paths : list pinfo) (fids : list nat) (fx : bool)',
            '    (scale : list (fmt * dtype * nat * nat)) (mixed lowdim : bool) : cfg :=',
            '  mkCfg n platform_page paths fids platform_off platform_foot platform_conv fx scale platform_nointer',
-           '        mixed lowdim true true.', '']
+           '        mixed lowdim true true platform_tclass.', '']
     p = os.path.join(common.COQ, 'C09', 'Tables.v')
     new = '\n'.join(txt)
     if not os.path.exists(p) or open(p).read() != new:
@@ -165,6 +184,10 @@ CONFIGS = {
     # reshaping the proxy); predicate-only histories
     'lowdim': [path('a.nii', 'N', (0, 'i2s', 0)), path('b.mgh', 'M'), path('c.nii', 'N')],
     'lowdim-z': [path('a.nii', 'N', (0, 'i2s', 0)), path('b.mgz', 'M'), path('c.nii.gz', 'N')],
+    # class conversions with SPM Analyze: Analyze -> NIfTI single / MGH by extension; a NIfTI or MGH image saved
+    # back under the .img name replaces the Analyze triple by a NIfTI pair (the class of a .img name is its content's)
+    'spm-cross': [path('a.img', 'A', (0, 'f8', 2)), path('b.nii', 'N'), path('c.mgh', 'M')],
+    'img-mix': [path('a.img', 'A', (0, 'f8', 2)), path('b.img', 'P', (1, 'f8', 1)), path('c.img', 'P')],
     # one file reached by several names: saving onto "another name" is saving onto the mapped file
     'nii-links': [path('a.nii', 'N', (0, 'f8', 0)), path('s.nii', 'N', link=('sym', 0)), path('h.nii', 'N', link=('hard', 0))],
     'nii-links2': [path('a.nii', 'N', (0, 'f4', 0)), path('h.nii', 'N', link=('hard', 0)), path('a.nii', 'N', link=('abs', 0))],
@@ -181,8 +204,8 @@ ARRAY_SLOT = dict(v=2, fmt='N', dt='f8', aff=2)
 ARRAY_SLOT_SPM = dict(v=2, fmt='A', dt='f8', aff=3)
 
 ALPHA = ['L00T', 'L00F', 'L01T', 'L10T', 'L11T', 'F0', 'F1', 'U0', 'E0', 'D0', 'D1', 'S00', 'S01', 'S10', 'S11', 'B0']
-ALL_OPS = [f'L{s}{p}{m}' for s in '01' for p in '012' for m in 'TF'] + [f'{k}{s}' for k in 'FUEDBXI' for s in '01'] + \
-    [f'S{s}{p}' for s in '01' for p in '012']
+ALL_OPS = [f'L{s}{p}{m}' for s in '01' for p in '012' for m in 'TFR'] + [f'{k}{s}' for k in 'FUEDBXI' for s in '01'] + \
+    [f'S{s}{p}' for s in '01' for p in '012'] + [f'T{s}{p}' for s in '01' for p in '012'] + ['C01', 'C10', 'M0', 'M1']
 
 
 PRESET = (0.5, 0.5)      # slope, intercept of the 'i2s' sources (raw 2V-1 decodes to V)
@@ -239,10 +262,11 @@ def model_line(hid, cfgname, shape, imgs, ops, facts, fix=1, shift=0):
     return (f"{hid} run {fix} {facts['page']} {n} " + ','.join(str(facts['off'][k]) for k in 'NPMA') + ' ' +
             ','.join(str(facts['foot'][k]) for k in 'NPMA') + ' ' + conv + ' ' + scale + ' ' +
             ''.join(str(int(facts['nointer'][k])) for k in 'NPMA') + ' ' + flags + ' ' +
+            ''.join(facts['tclass'][(a, b)] for a in 'NPMA' for b in 'NPMA') + ' ' +
             ','.join(p['fmt'] + str(int(p['gz'])) for p in paths) + ' ' +
             ','.join(str(i) for i in file_ids(paths)) + ' ' +
-            ','.join('-' if p['init'] is None else ('%d:i2:%d:1' % (p['init'][0], p['init'][2]) if p['init'][1] == 'i2s' else
-                                                    '%d:%s:%d' % p['init']) for p in paths if p['link'] is None) + ' ' +
+            ','.join('-' if p['init'] is None else (('%d:i2:%d:1' % (p['init'][0], p['init'][2]) if p['init'][1] == 'i2s' else
+                                                     '%d:%s:%d:0' % p['init']) + ':' + p['fmt']) for p in paths if p['link'] is None) + ' ' +
             ','.join('-' if s is None else f"A:{s['v']}:{s['fmt']}:{s['dt']}:{s['aff']}" for s in imgs) + ' ' +
             ' '.join(ops))
 
@@ -396,6 +420,36 @@ def plan_cases(chk):
                     plan.append((cfgname, shape, [None, None], [l, 'F0', sv, 'F0', 'B0'], 'exhaustive'))
     for cfgname in ('nii', 'cross') if thorough else ('nii',):
         add(cfgname, SMALL, [None, ARRAY_SLOT], [], 3, first=first_loads + ['S10', 'S11', 'F1'])
+    # to_filename (no class conversion), a second image object on the same dataobj (from_image), in-place edits of
+    # np.asanyarray(dataobj), mixed with loads, reads and saves
+    alpha2 = ['T00', 'T01', 'C01', 'M0', 'S00', 'S01', 'F0', 'F1', 'D0', 'U0', 'S10', 'S11', 'T11', 'M1', 'L10T']
+    for cfgname in ('nii', 'pair', 'mgh', 'cross', 'spm', 'spm-cross', 'img-mix') if not thorough else [c for c in CONFIGS if not c.startswith('lowdim')]:
+        for shape in (SMALL, BIG):
+            if not thorough and shape == BIG and cfgname not in ('nii', 'pair'):
+                continue
+            for f in first_loads:
+                for rest in itertools.product(alpha2, repeat=2):
+                    ops = [f] + list(rest)
+                    if any(t[0] in 'TCM' for t in ops) and not (ops[1][1] == '1' and ops[1][0] != 'L'):
+                        plan.append((cfgname, shape, [None, None], ops, 'exhaustive'))
+    # mmap='r' (read-only map): same aliasing as the copy-on-write map; edits of the array are refused
+    for cfgname in ('nii', 'pair', 'mgh', 'nii-links'):
+        for shape in (SMALL, BIG):
+            for ops in (['L00R', 'S00', 'F0'], ['L00R', 'F0', 'M0', 'S00', 'F0'], ['L00R', 'F0', 'L10R', 'D1', 'S10', 'F1', 'U0', 'F0'],
+                        ['L00R', 'M0', 'S01', 'L11R', 'F1', 'S10', 'F0']):
+                plan.append((cfgname, shape, [None, None], ops, 'exhaustive'))
+    for shape in (SMALL, BIG):
+        for ops in (['L00T', 'F0', 'C01', 'D0', 'S00', 'F0', 'F1'], ['L00T', 'C01', 'S10', 'F0', 'F1', 'S01'],
+                    ['L00T', 'C01', 'F1', 'D1', 'T10', 'F1', 'F0'], ['L00T', 'M0', 'F0', 'M0', 'T00', 'M0', 'F0']):
+            for cfgname in ('nii', 'pair', 'spm', 'nii-links'):
+                plan.append((cfgname, shape, [None, None], ops, 'exhaustive'))
+    # SPM Analyze <-> NIfTI / MGH: every sequence of saves across the three names after loading, then reloads
+    sv3 = ['S00', 'S01', 'S02', 'L01T', 'L02T', 'L00T', 'F0', 'T00', 'T01']
+    for cfgname in ('spm-cross', 'img-mix'):
+        for shape in (SMALL, BIG):
+            for seq in itertools.product(sv3, repeat=3 if (thorough or shape == SMALL) else 2):
+                if seq[0][0] != 'L':
+                    plan.append((cfgname, shape, [None, None], ['L00T'] + list(seq), 'exhaustive'))
     # vector-like volumes (one non-unit axis, beyond a page): own-file saves and everything else of depth 2
     for cfgname in ('nii', 'pair', 'mgh'):
         for shape in VECS:
@@ -420,7 +474,7 @@ def plan_cases(chk):
     # a filled cache that is the memory map itself, then everything of depth 3
     for cfgname in ('nii', 'pair', 'cross'):
         for shape in (SMALL, BIG):
-            if not thorough and cfgname == 'cross':
+            if not thorough and (cfgname == 'cross' or (cfgname == 'pair' and shape == SMALL)):
                 continue
             add(cfgname, shape, [None, None], ['L00T', 'F0'], 3)
     for shape in (BIG,) if not thorough else (SMALL, BIG):
@@ -605,10 +659,10 @@ def run(chk: Check):
         chk.violation('harness_error', case=None, predicate=f'{n_skipped} histories skipped after the crash cap without '
                       'any violation found', found_input=False)
     chk.extra['unproved_statements'] = [
-        'C09_no_crash (full statement: no step of any history crashes) is FALSE of the faithful model: '
-        'C09_no_crash_refuted (S-C09b: a cached memory map of a file that ANOTHER image object later shortens); '
-        'proved instead: C09_save_never_crashes (all histories) and C09_no_crash_partial (histories in which no save '
-        'shortens a file under a live cached map)',
+        'no step of ANY history crashes is FALSE of the faithful model: C09_no_crash_refuted (S-C09b: a cached memory '
+        'map of a file that ANOTHER image object later shortens); proved instead: C09_save_never_crashes (all '
+        'histories), C09_no_crash (every history on which the computed predicate `affected` is false), '
+        'C09_affected_is_real (tightness), C09_no_crash_partial (static sufficient condition)',
         'C09_files_decode: the file holds written(g, fmt, dtype, v): it decodes to v except when MGH (no scaling) clips '
         'data of both signs to uint8 (lemma written_val); integer quantisation itself is C02\'s subject; C09_usable '
         'carries the same exclusion and the side conditions names_wf / classes_ok (invariant of every run)']
@@ -640,8 +694,8 @@ def coq_case(cfgname, shape, imgs, ops, mtoks, shift=0):
     n = int(np.prod(shape))
     ps = '[' + '; '.join(f"mkP {fm[p['fmt']]} {'true' if p['gz'] else 'false'}" for p in paths) + ']'
     fs = '[' + '; '.join('None' if p['init'] is None else
-                         (f"Some (mkK (Some {p['init'][0]}%nat) I2 {p['init'][2]}%nat 1%nat)" if p['init'][1] == 'i2s' else
-                          f"Some (mkK (Some {p['init'][0]}%nat) {p['init'][1].upper()} {p['init'][2]}%nat 0%nat)")
+                         (f"Some (mkK (Some {p['init'][0]}%nat) I2 {p['init'][2]}%nat 1%nat {fm[p['fmt']]})" if p['init'][1] == 'i2s' else
+                          f"Some (mkK (Some {p['init'][0]}%nat) {p['init'][1].upper()} {p['init'][2]}%nat 0%nat {fm[p['fmt']]})")
                          for p in paths if p['link'] is None) + ']'
     rows, _ = scale_table(shape, shift)
     sc = '[' + '; '.join(f'({fm[f]}, {d.upper()}, {v}%nat, {k}%nat)' for f, d, v, k in rows) + ']'
@@ -653,13 +707,17 @@ def coq_case(cfgname, shape, imgs, ops, mtoks, shift=0):
     def op(t):
         k = t[0]
         if k == 'L':
-            return f"Load {t[1]}%nat {t[2]}%nat {'true' if t[3] == 'T' else 'false'}"
+            return f"Load {t[1]}%nat {t[2]}%nat {'true' if t[3] in 'TR' else 'false'}"
         if k == 'S':
             return f'Save {t[1]}%nat {t[2]}%nat'
         if k == 'W':
             return f'SaveU8 {t[1]}%nat {t[2]}%nat'
+        if k == 'T':
+            return f'ToFilename {t[1]}%nat {t[2]}%nat'
+        if k == 'C':
+            return f'Clone {t[1]}%nat {t[2]}%nat'
         return {'F': 'Fdata', 'U': 'Uncache', 'E': 'EditHdr', 'D': 'SetDtype', 'B': 'ToBytes', 'X': 'SaveFull',
-                'I': 'SetInt'}[k] + f' {t[1]}%nat'
+                'I': 'SetInt', 'M': 'EditMap'}[k] + f' {t[1]}%nat'
 
     def v(x):
         return 'None' if x == 'G' else f'(Some {x}%nat)'
@@ -677,7 +735,7 @@ def coq_case(cfgname, shape, imgs, ops, mtoks, shift=0):
         if p[0] == 'ref':
             return 'ORefused ' + {'noimage': 'ENoImage', 'nofile': 'ENoFile', 'short_read': 'EShortRead',
                                   'no_conversion': 'ENoConversion', 'not_serializable': 'ENotSerializable',
-                                  'nospace': 'ENoSpace', 'writer': 'EWriter'}[p[1]]
+                                  'nospace': 'ENoSpace', 'writer': 'EWriter', 'class': 'EClass'}[p[1]]
         return {'crash': 'OCrash', 'dead': 'ODead'}[p[0]]
 
     return (f"check_case (platform_cfg {n} {ps} {fids} true {sc} {'true' if shift else 'false'} "
